@@ -967,10 +967,14 @@ RULE = (
     "pipelines advanced/closed/thrown-into/dropped, lexer reconfiguration "
     "closed by default_initialization(), caller-side mutation); populations "
     "I (fresh lexer: first-call race) and S (warm lexer) = 2-4 real threads "
-    "stepped one at a time by the seeded scheduler (random-walk, PCT, or "
-    "stratified single pre-emption over the lexer initialisation window; "
-    "line or instruction granularity), optionally with an injected "
-    "interrupt or raising call. Non-trivial: H = at least one perturbing op "
+    "stepped one at a time by the seeded scheduler (random-walk, PCT, a "
+    "stratified single pre-emption over the lexer initialisation window, "
+    "or a single pre-emption at a source line the first op executes on "
+    "first use only / at any of its lines, measured on the tree under "
+    "test; line or instruction granularity; S also lexer-only warm, shared "
+    "option sets, nested inputs), optionally with an injected interrupt or "
+    "raising call. 1% of the histories are long (300-500 calls, statements "
+    "with up to 5000 never-seen identifiers). Non-trivial: H = at least one perturbing op "
     "(raise, interrupt, abandon, reconfigure, mutate) precedes a checked "
     "op; I/S = at least one context switch happened while both the "
     "descheduled and the resumed thread were inside a sqlparse API call. "
